@@ -149,11 +149,14 @@ impl DataChunk {
     /// Concatenate two chunks in rows.
     pub fn row_concat(self, other: Self) -> Self {
         assert_eq!(self.cardinality(), other.cardinality());
-        self.arrays
-            .iter()
-            .chain(other.arrays.iter())
-            .cloned()
-            .collect()
+        // keep the cardinality: both sides may have no columns
+        DataChunk {
+            cardinality: self.cardinality,
+            arrays: (self.arrays.iter())
+                .chain(other.arrays.iter())
+                .cloned()
+                .collect(),
+        }
     }
 }
 
